@@ -290,6 +290,8 @@ class H5Group:
 
     def copy(self, source, dest, name=None, cls=None, shallow=False,
              keep_id=True):
+        # the copy's name is an entity name like any other (no slash)
+        util.check_entity_name(name)
         grp = self.group
         dest.open_group(cls, create=True)
         dest_grp = dest.group[cls]
